@@ -21,8 +21,13 @@ Definition rmask := list path.
 
 Definition dev_names : list string := ["dev"; "dev2"].
 
+(* [parts]: for every TUpdate of the history, in order, how many items of the collection behind the
+   resource the request writes; [] (or a missing entry) = one, which is what every register does.
+   Only openclosepb.ModelServer (a collection of positions assembled into one OpenClosePositions)
+   has requests that write none or several. *)
 Inductive c14case :=
-| KTrace (server : string) (init : value) (evs : list (tev value rmask)) (streams : list (sobs value)).
+| KTrace (server : string) (init : value) (evs : list (tev value rmask)) (streams : list (sobs value))
+         (parts : list nat).
 
 Definition equiv_of (e : eqkind) : option (option value -> option value -> bool) :=
   match e with
@@ -126,7 +131,7 @@ Definition info_of (server : string) : option srvinfo := alookup server servers_
 
 Definition agrees_gen (vof : string -> variant) (c : c14case) : bool :=
   match c with
-  | KTrace server init evs streams =>
+  | KTrace server init evs streams _ =>
       match info_of server with
       | None => false
       | Some info =>
@@ -139,7 +144,7 @@ Definition agrees_v0 := agrees_gen variant_of_v0.
 
 Definition C14_ok (c : c14case) : bool :=
   match c with
-  | KTrace server init evs streams =>
+  | KTrace server init evs streams _ =>
       match info_of server with
       | None => false
       | Some info => trace_ok value_eqb ref_proj (equiv_of (sv_eq info)) dev_names (mkTrace (Some init) evs streams)
@@ -151,10 +156,103 @@ Definition mask_ok (k : option rmask) : bool :=
 
 Definition C14_guard (c : c14case) : bool :=
   match c with
-  | KTrace _ _ evs _ =>
+  | KTrace _ _ evs _ _ =>
       forallb (fun e => match e with TGet _ k _ => mask_ok k | TOpen _ k _ => mask_ok k | _ => true end) evs
   end.
 
-(* no known-finding class is left: the two openclose deviations are repaired *)
+(* ---- histories with an Update that does not write exactly one item (openclosepb only) ----
+   The register model has nothing to say about them ([agrees] is not consulted): an Update without
+   positions writes and publishes nothing, one with several positions is several writes.  The
+   property predicate is evaluated as for everything else.  Where it fails, ONE deviation is
+   recorded (class 3): an UpdatePositions with n >= 2 positions publishes n collection changes, and
+   PullPositions turns each into a message, so a stream may show up to n-1 intermediate values that
+   no Get or Update response ever showed before the response's value.  [relaxed_ok] is C14_ok with
+   exactly that allowance; anything else that goes wrong is still a failing input. *)
+Fixpoint annotate (ps : list nat) (evs : list (tev value rmask)) : list (tev value rmask * nat) :=
+  match evs with
+  | [] => []
+  | TUpdate n r :: rest =>
+      match ps with
+      | p :: ps' => (TUpdate n r, p) :: annotate ps' rest
+      | [] => (TUpdate n r, 1%nat) :: annotate [] rest
+      end
+  | e :: rest => (e, 1%nat) :: annotate ps rest
+  end.
+
+Definition irregular (ps : list nat) : bool := existsb (fun p => negb (Nat.eqb p 1)) ps.
+Definition has_multi (ps : list nat) : bool := existsb (fun p => Nat.leb 2 p) ps.
+
+Fixpoint since_a (i : nat) (k : option rmask) (aevs : list (tev value rmask * nat)) : list (value * nat) * bool :=
+  match aevs with
+  | [] => ([], false)
+  | (TUpdate name (inl v), n) :: r =>
+      if t_routed dev_names name then let '(l, c) := since_a i k r in ((pm ref_proj k v, n) :: l, c) else since_a i k r
+  | (TCancel j, _) :: r => if Nat.eqb j i then ([], true) else since_a i k r
+  | _ :: r => since_a i k r
+  end.
+
+Fixpoint accepts_x (fuel : nat) (eqv : option (option value -> option value -> bool))
+         (base last : option value) (ups : list (value * nat)) (obs : list value) : bool :=
+  match fuel with
+  | O => false
+  | S fu =>
+      match ups with
+      | [] => match obs with [] => true | _ => false end
+      | (v, n) :: r =>
+          match obs with
+          | o :: obs' =>
+              (if value_eqb o v then accepts_x fu eqv base (Some v) r obs'
+               else unchanged value_eqb eqv base last v && accepts_x fu eqv base last r obs)
+              || (Nat.leb 2 n && accepts_x fu eqv base (Some o) ((v, pred n) :: r) obs')   (* an intermediate value *)
+          | [] => unchanged value_eqb eqv base last v && accepts_x fu eqv base last r []
+          end
+      end
+  end.
+
+Definition stream_ok_x (eqv : option (option value -> option value -> bool)) (init : value)
+           (evs : list (tev value rmask)) (parts : list nat) (i : nat) (o : sobs value) : bool :=
+  match find_open dev_names i (Some init) evs with
+  | None => false
+  | Some (name, k, uo, cur, rest) =>
+      if t_routed dev_names name then
+        let aevs := annotate parts evs in
+        let '(ups, cancelled) := since_a i k (skipn (List.length aevs - List.length rest) aevs) in
+        let current := option_map (pm ref_proj k) cur in
+        let fuel := (List.length (fst o) + List.length ups + fold_right Nat.add 0%nat (map snd ups) + 2)%nat in
+        status_eqb (snd o) (if cancelled then Some 1 else None) &&
+        forallb (fun x => String.eqb (fst x) name) (fst o) &&
+        (if uo then accepts_x fuel eqv current None ups (map snd (fst o))
+         else match current, map snd (fst o) with
+              | Some c, first :: more => value_eqb first c && accepts_x fuel eqv None (Some c) ups more
+              | None, more => accepts_x fuel eqv None None ups more
+              | Some _, [] => false
+              end)
+      else match fst o with [] => status_eqb (snd o) (Some 5) | _ => false end
+  end.
+
+Fixpoint streams_from_x eqv init evs parts (i : nat) (obs : list (sobs value)) : bool :=
+  match obs with
+  | [] => true
+  | o :: r => stream_ok_x eqv init evs parts i o && streams_from_x eqv init evs parts (S i) r
+  end.
+
+Definition relaxed_ok (c : c14case) : bool :=
+  match c with
+  | KTrace server init evs streams parts =>
+      match info_of server with
+      | None => false
+      | Some info =>
+          gets_ok value_eqb ref_proj dev_names (Some init) evs &&
+          Nat.eqb (List.length streams) (count_opens evs) &&
+          streams_from_x (equiv_of (sv_eq info)) init evs parts O streams
+      end
+  end.
+
+Definition parts_of (c : c14case) : list nat := match c with KTrace _ _ _ _ ps => ps end.
+
 Definition judge (c : c14case) : Z :=
-  verdict (agrees c) (if C14_guard c then C14_ok c else true) None.
+  if irregular (parts_of c) then
+    if (if C14_guard c then C14_ok c else true) then 0
+    else if has_multi (parts_of c) && relaxed_ok c then 103
+    else 3
+  else verdict (agrees c) (if C14_guard c then C14_ok c else true) None.
